@@ -1,6 +1,7 @@
 """C01 - generated bindings compile for every accepted header and option set.
 
 model : Names.tla - identifier mangling (keywords, '$'), colliding pairs enumerated by TLC; closure predicate
+        NameSites.tla - every site where a C name becomes a Rust identifier, and what the code writes there (lib/c01_sites.py)
         Gen_Options.tla - option vectors of the property's flag space (builder dependencies respected)
 R     : header families (C07 orders, C08 shapes, name families incl. every TLC collision pair, C/C++ feature
         families) x pairwise-covering option vectors x editions -> real CLI -> rustc --edition <e> --crate-type
@@ -277,6 +278,9 @@ def run(res, tier):
     r2 = C.tlc(os.path.join(BACK, "Names.tla"), cfg="MC_Names_injective_fails.cfg", workers=2, timeout=300, name="c01-sens")
     if "is violated" not in r2["out"]:
         raise C.ToolError("sensitivity config MC_Names_injective_fails did not fail")
+    # every site where a C name becomes a Rust identifier (NameSites.tla), replayed on the real bindgen
+    import c01_sites
+    c01_sites.run(res, tier)
     opts, nopts = pick_options(res, tier)
     res.add(option_vectors_enumerated=nopts, option_vectors_run=len(opts), mangle_collisions_enumerated=len(pairs))
 
